@@ -12,6 +12,12 @@ CHECKS = {
          "Trusts the reference varint codec (self-checked at setup); int64/float64 are covered on boundary sets only.", "DESIGN.md §4 C17"),
 }
 CHECKS.update({
+ "C01": (True, "exploration", "bounded-exhaustive enumeration of (struct type, value sequence, codec, block size, flush pattern, reader chunking) through the real encoder and reader",
+         "Small-scope exhaustive exploration: 900+ probe struct types (all type expressions of depth <=2 over 16 leaves and 4 wrappers; the depth<=1 ones as generated static types through the real generic Encoder[T]) x every value sequence of length <=2 over the full value alphabet and every length-3 sequence over representatives x 3 codecs x 4 block sizes x every flush subset, read back through ReadFile into T and *T under three reader behaviours; canary fields around the probe field expose out-of-field loads/stores. Every small shape is visited, which is what finds the breaking type shapes the suite does not sample.",
+         "Depth/size bounds (small-scope hypothesis); dynamic types use an API-level emulation of the 20-line Encoder.", "DESIGN.md §4 C01"),
+ "C02": (True, "exploration", "same bounded-exhaustive case space as C01, judged by an independent reference container parser / decoder written from the spec",
+         "Every output file of the C01 case space is parsed by a reference container parser (exact counts and sizes, reference decompressors, sync), its embedded schema by a reference JSON parser, and each block is decoded under that schema alone with zero leftover bytes and compared (including union branches) with the datum the documented mapping assigns to the written Go value. Mirrored encode/decode errors are visible because the oracle shares no code with the library.",
+         "Trusts ref (self-checked at setup) and the abstraction function gv.ToDatum; empty non-nil omitempty collections may be null or non-null.", "DESIGN.md §4 C02"),
  "C14": (True, "exploration", "bounded-exhaustive enumeration of schema ASTs x key orders x layouts x extra attributes; reference JSON parser/printer as oracle",
          "Every schema AST up to nesting depth 2 (3 in thorough) over all supported attributes is rendered under 24 key orderings, 3 layouts and with 9 kinds of extra attribute at every object; the parse result is compared structurally with the expected schema, Marshal output is validated with encoding/json, re-parsed by an independent parser and by the library (round-trip identity); every truncation / structural-token deletion or duplication of the small documents must be rejected.",
          "Depth bound; nil/empty Object and slices identified; malformed = rejected by encoding/json.", "DESIGN.md §4 C14"),
